@@ -183,8 +183,6 @@ def refine_oracle(hits: list[list], lens: dict[str, int], out: Any) -> dict[str,
                 represented.update(cand["members"])
         if not matched:
             failed.setdefault("refine/returned-is-input-or-spanning-merge", f"{o} from {hits}")
-    if len({tuple(o) for o in out}) != len(out):
-        failed.setdefault("refine/returned-is-input-or-spanning-merge", f"duplicate hits in {out}")
 
     # a hit is dropped only if a better-ranked overlapping hit is kept, or it is an incomplete
     # fragment with a more complete alternative
